@@ -2,8 +2,10 @@
 (* Enumerates grammar-accepted but semantically odd constructs (C01): every  *)
 (* type position x primitive x size form x wrapper x optionality, names with  *)
 (* %-escapes in every name position, and near-miss corruptions (operation x   *)
-(* relative position).  One construct is varied at a time; the harness puts   *)
-(* it into a minimal program.                                                 *)
+(* relative position), and rings of declarations that refer to one another    *)
+(* (mixins, aliases, unions, fields, calls, subscriptions, view calls, foreign *)
+(* keys).  One construct is varied at a time; the harness puts it into a      *)
+(* minimal program.                                                           *)
 EXTENDS Integers, Sequences, TLC, Json
 
 VARIABLES phase
@@ -26,6 +28,11 @@ Names == {"My%20Name", "Bad%zzName", "Pct%", "%2", "a%25b", "%", "%%", "x%0", "N
 Ops == {"dropline", "dupline", "swaplines", "truncline", "truncbyte", "indentmore", "indentless",
         "strayNUL", "strayFF", "strayCR", "dropcolon", "tabify", "dropchar", "dupchar"}
 
+\* rings: n declarations that refer to one another in a cycle (n = 1 is a self-reference), for every relation a
+\* declaration can have to another one; "files" spreads the ring over n imported files
+RingRels == {"mixin", "alias", "aliasseq", "union", "field", "fieldseq", "call", "subscribe", "viewcall", "tablefk"}
+RingSizes == 1..4
+
 Init == phase = 0
 Next ==
   \/ /\ phase = 0 /\ phase' = 1
@@ -37,5 +44,8 @@ Next ==
   \/ /\ phase = 2 /\ phase' = 3
      /\ \A op \in Ops, at \in 0..19 :
           PrintT(<<"SCN", ToJson([kind |-> "corrupt", op |-> op, at |-> at])>>)
+  \/ /\ phase = 3 /\ phase' = 4
+     /\ \A r \in RingRels, n \in RingSizes, f \in BOOLEAN :
+          PrintT(<<"SCN", ToJson([kind |-> "ring", rel |-> r, n |-> n, files |-> f])>>)
 Spec == Init /\ [][Next]_vars
 =============================================================================
